@@ -1,4 +1,4 @@
-import IrVerif.Lemmas.SerdeModel
+import IrVerif.Lemmas.SerdeNormIdem
 /-!
 C02 — ONNX proto -> IR -> proto is lossless (DESIGN.md section 5, C02).
 
@@ -9,7 +9,8 @@ decidable `WFproto`.
 
 Stage A: every leaf message round-trips, for all inputs.
 Stage B: nodes and graphs with arbitrarily nested subgraphs (values captured from enclosing
-scopes), functions and models: `WFproto p -> serialize (deserialize p) = norm p`.
+scopes), functions and models: `WFproto p -> serialize (deserialize p) = norm p`, and `norm` is
+idempotent, hence `WFproto p -> norm (serialize (deserialize p)) = norm p` (`C02_model_norm`).
 -/
 namespace IrVerif.Serde
 open IrVerif.Proto
@@ -205,6 +206,18 @@ value_info only from IR 10.) -/
 theorem C02_model (m : ModelP) (h : wfModel m = true) :
     ∃ x, desModel m = .ok x ∧ serModel x = .ok (normModel m) :=
   model_rt m h
+
+/-- the same in the form of the property statement: `norm (serialize (deserialize m)) = norm m`
+(`norm` is idempotent on well-formed models, `normModel_idem`) -/
+theorem C02_model_norm (m : ModelP) (h : wfModel m = true) :
+    ∃ x y, desModel m = .ok x ∧ serModel x = .ok y ∧ normModel y = normModel m := by
+  obtain ⟨x, h1, h2⟩ := model_rt m h
+  exact ⟨x, normModel m, h1, h2, normModel_idem m h⟩
+
+/-- `norm` is a canonical form: applying it twice changes nothing (graphs in any scope chain) -/
+theorem C02_norm_idempotent (outer : Scopes) (g : GraphP) (h : wfGraph outer g = true) :
+    normGraph (normGraph g) = normGraph g :=
+  normGraph_idem outer g h
 
 /-- non-vacuity of `wfModel`: IR version 11, the graph above (nested subgraph capturing an outer
 value), two functions `custom::f` that differ only in their overload, the second with a reference
